@@ -172,6 +172,10 @@ func Only() string { return os.Getenv("VERIF_ONLY") }
 
 var resumeAfter = os.Getenv("VERIF_RESUME_AFTER")
 
+// ResumeAfter: the case after which a restarted child continues ("" on a first start); for
+// engines that shard by name instead of by index.
+func ResumeAfter() string { return os.Getenv("VERIF_RESUME_AFTER") }
+
 // Want reports whether the named case should run in this process.
 func Want(idx int, name string) bool {
 	if o := Only(); o != "" {
